@@ -464,8 +464,10 @@ def upto_last_crash(sched):
     return sched[:last + 1]
 
 
-def line(switches, skel, sched):
-    return "crash\trun\t%s\t%s\t%s" % (",".join(switches), pj(skel), pj(sched))
+def line(switches, skel, sched, lenient=False):
+    """`lenient`: operations of the schedule that are not enabled are left out (the question "what does the protocol with
+    these switches do under this schedule" for switches other than the engine's, whose handler invocations differ)"""
+    return "crash\t%s\t%s\t%s\t%s" % ("runl" if lenient else "run", ",".join(switches), pj(skel), pj(sched))
 
 
 def engine_observation(s, ea, fv, terms, reqs, detail):
@@ -491,8 +493,9 @@ def engine_observation(s, ea, fv, terms, reqs, detail):
         d = (n["body"] or {}).get("detail", {}) if n["body"] else {}
         if d.get("executionArn") and d["executionArn"] != ea and d.get("status") == "RUNNING":
             started.add(d["executionArn"])
-    return {"terminal": fv.get("status") in ("SUCCEEDED", "FAILED"),
-            "failed": fv.get("status") == "FAILED",
+    # (how the execution ended is its first terminal notification: the model is asked up to the handler that published it)
+    return {"terminal": bool(terms) or fv.get("status") in ("SUCCEEDED", "FAILED"),
+            "failed": (terms[0] if terms else fv.get("status")) == "FAILED",
             "notes": len(terms),
             "resent": o([c for c, n in reqs.items() if n > 1]),
             "requests": sum(reqs.values()) + len(started),
